@@ -102,7 +102,7 @@ func c08ExecCodec(c c08.Case, buf []byte) string {
 	}
 	cd := c08Codecs[name]
 	if name == "tars" && c08.TarsAbsurdMapCount(buf) {
-		return "not-run (announced map size >= 2^20: observation O1 of findings/C08.md - the call returns after up to a minute; no verdict)"
+		return "not-run (announced map size > 2^24: findings/C08.md F5 - sizes up to 2^24 are executed under the cost oracle)"
 	}
 	// stream-level context as stream.ContextManager.Next builds it
 	ctx := buffer.NewBufferPoolContext(context.Background())
@@ -158,6 +158,12 @@ func c08Gen(ts []c08Target) func(yield func(c08.Case) bool) {
 					return
 				}
 			}
+			// element counts (map sizes, vector lengths) far beyond what the input can hold
+			for _, f := range tg.frames {
+				if !c08.CountMutations(tg.name, f, yield) {
+					return
+				}
+			}
 			if tg.grid != nil && !tg.grid(tg.name, yield) {
 				return
 			}
@@ -165,8 +171,8 @@ func c08Gen(ts []c08Target) func(yield func(c08.Case) bool) {
 	}
 }
 
-const c08Bound = "per codec: every frame of the alphabet x {every truncation; every length field x {0,1,2,3,true-1,true+1,2^16-1,2^31-1,2^31,2^32-1} (clamped to the field width); every byte x {0x00,0xFF,^b} (thorough: x all 256 values); every block +1..3 bytes of {00,01,FF} and -1..3 bytes with lengths adjusted; 1..3 trailing bytes}; all byte strings of length <=2; all 3-byte strings starting with the protocol magic; every path-selecting byte (bolt: protocol code, command type, command code, codec, v2 switch; dubbo: flag, status; dubbo-thrift: version, strict-version bytes, message type; tars: the head byte of every length-carrying TLV, SIMPLE_LIST element type, head of every size INT) x all 256 values, and x {0..7, single bits, single cleared bits, 0xFF, single-bit flips of the true value, true+-1} x every length field (tars: the TLV's own length and the packet length) x the length boundary set; constructed grids: bolt/boltv2 {cmdType 0..3} x {cmdCode 0..2} x classLen {0,1,2} x headerLen {0,1,3,4,5,8,9,10} x contentLen {0,1,2} x 2 header fills x {complete, -1 byte, +1 byte}; dubbo {all 256 flag bytes} x status {0,20,255} x 7 payloads (request payload cut to 0,1,2,3,len-1,len bytes; null), each for the 3 listener configurations"
-const c08Rule = "each input is decoded three times through XProtocol.Decode + ProtocolMatch (exact-capacity buffer, 4096 spare bytes of 0xA5, of 0x3C); distinct = distinct input bytes per target; outcome = (target, class, frame|more|error|panic). Oracle: no panic escapes (a panic the codec recovers and returns as an error is allowed); outcomes with different poison identical; TotalAlloc delta of a call <= 1MiB+32*len(input) (confirmed by the minimum of 3 re-measurements); the call returns (60s; or >300ms with >128MiB in use and growing). What a decoder returns for a corrupted frame (frame vs error vs more) is NOT compared. tars inputs announcing a map size >= 2^20 in a 4-byte INT are not executed (kind not-run; findings/C08.md O1)."
+const c08Bound = "per codec: every frame of the alphabet x {every truncation; every length field x {0,1,2,3,true-1,true+1,2^16-1,2^31-1,2^31,2^32-1} (clamped to the field width); every byte x {0x00,0xFF,^b} (thorough: x all 256 values); every block +1..3 bytes of {00,01,FF} and -1..3 bytes with lengths adjusted; 1..3 trailing bytes}; all byte strings of length <=2; all 3-byte strings starting with the protocol magic; every path-selecting byte (bolt: protocol code, command type, command code, codec, v2 switch; dubbo: flag, status; dubbo-thrift: version, strict-version bytes, message type; tars: the head byte of every length-carrying TLV, SIMPLE_LIST element type, head of every size INT) x all 256 values, and x {0..7, single bits, single cleared bits, 0xFF, single-bit flips of the true value, true+-1} x every length field (tars: the TLV's own length and the packet length) x the length boundary set; constructed grids: bolt/boltv2 {cmdType 0..3} x {cmdCode 0..2} x classLen {0,1,2} x headerLen {0,1,3,4,5,8,9,10} x contentLen {0,1,2} x 2 header fills x {complete, -1 byte, +1 byte}; dubbo {all 256 flag bytes} x status {0,20,255} x 7 payloads (request payload cut to 0,1,2,3,len-1,len bytes; null), each for the 3 listener configurations; every 4-byte element count of the tars frames (map sizes, vector lengths) x {2^24, 2^22, 2^20, 2^16}"
+const c08Rule = "each input is decoded three times through XProtocol.Decode + ProtocolMatch (exact-capacity buffer, 4096 spare bytes of 0xA5, of 0x3C); distinct = distinct input bytes per target; outcome = (target, class, frame|more|error|panic). Oracle: no panic escapes (a panic the codec recovers and returns as an error is allowed); outcomes with different poison identical; TotalAlloc delta of a call <= 1MiB+32*len(input) (confirmed by the minimum of 3 re-measurements); the call returns (60s; or >300ms with >128MiB in use and growing). What a decoder returns for a corrupted frame (frame vs error vs more) is NOT compared. Cost: the minimum thread CPU time (CLOCK_THREAD_CPUTIME_ID of the locked OS thread) over the three executions of an input <= 1 KiB must not exceed 100 ms (replay: 50 ms). tars inputs announcing a map size > 2^24 in a 4-byte INT are not executed (kind not-run; findings/C08.md F5); sizes up to 2^24 are."
 
 func c08Run(t *testing.T, part string, ts []c08Target) {
 	budget := time.Duration(vreport.Pick(4, 20)) * time.Minute
